@@ -1,9 +1,87 @@
 (** C20 - The RESP codec round-trips and is independent of how bytes are chunked.
-    Only statements; proofs are in Proofs/RespFacts.v. *)
-From Ferrous Require Import Base.Bytes Model.Resp Proofs.RespFacts.
+    Statements only; proofs are in Proofs/RespFacts.v.  The model (Model/Resp.v)
+    mirrors src/protocol/parser.rs and serializer.rs after the repairs
+    2aff8f9, 19441b8, cb498ad; [dparse]/[dprint] are the oracles for Rust's
+    f64 <-> decimal text conversion and are universally quantified. *)
+From Ferrous Require Import Base.Bytes Model.Resp Proofs.BytesFacts Proofs.RespFacts.
 Open Scope Z_scope.
+
+(** Serialising any well-formed value and parsing the bytes gives back the same
+    value and consumes exactly those bytes (whatever follows them). *)
+Theorem c20_roundtrip :
+  forall dparse dprint f rest, wf dparse dprint max_levels f ->
+  exists b, ser dprint f = (b, true) /\
+            parse_frame dparse max_levels (b ++ rest) = Done f rest.
+Proof. exact roundtrip. Qed.
+
+(** the same with the well-formedness test as an evaluable boolean *)
+Theorem c20_roundtrip_b :
+  forall dparse dprint f rest, wfb dparse dprint max_levels f = true ->
+  exists b, ser dprint f = (b, true) /\
+            parse_frame dparse max_levels (b ++ rest) = Done f rest.
+Proof. exact roundtrip_b. Qed.
+
+(** Feeding a byte stream in any chunking yields the same frames, in the same
+    order, and the same final status (need-more / error) as feeding it whole. *)
+Theorem c20_chunk_independent :
+  forall dparse chunks, run_chunks dparse chunks = run_chunks dparse [concat chunks].
+Proof. exact chunk_independent. Qed.
+
+(** A frame, once complete, is not changed by later bytes; a protocol error is
+    not revoked by later bytes; a complete frame consumes at least one byte. *)
+Theorem c20_results_stable :
+  forall dparse d data,
+  (forall f rest, parse_frame dparse d data = Done f rest ->
+     (length rest < length data)%nat /\
+     forall more, parse_frame dparse d (data ++ more) = Done f (rest ++ more)) /\
+  (parse_frame dparse d data = Err -> forall more, parse_frame dparse d (data ++ more) = Err).
+Proof. exact parse_frame_stable. Qed.
+
+(** Totality: the model parser is a total function into {frame, need more,
+    error} (no Panic outcome exists after the repairs), and the server's drain
+    loop terminates within its fuel: more fuel never changes the result. *)
+Theorem c20_drain_total :
+  forall dparse buf fuel, (length buf < fuel)%nat ->
+  drain dparse fuel buf [] = drain_buf dparse buf.
+Proof. exact drain_fuel_irrelevant. Qed.
 
 (** never reserves memory according to a declared length it has not received *)
 Theorem c20_reserve_bounded :
   forall declared data, reserve_request declared data <= len data.
 Proof. exact reserve_request_bounded. Qed.
+
+(** ---- non-vacuity and the boundary of [wf] ---- *)
+Definition no_dparse (_ : bytes) : option Z := None.
+Definition no_dprint (_ : Z) : bytes := [].
+
+Example c20_wf_inhabited :
+  wfb no_dparse no_dprint max_levels
+     (FArray [FBulk (bs "SET"); FBulk [13; 10; 0; 255]; FInt (-5); FNullBulk;
+              FMap [FSimple (bs "k"); FSet [FBool true; FNull]]; FArray []]) = true.
+Proof. vm_compute. reflexivity. Qed.
+
+(** outside [wf] the round-trip really fails: a simple string containing CR LF *)
+Example c20_simple_crlf_refuted :
+  exists f b, ser no_dprint f = (b, true) /\
+              parse_frame no_dparse max_levels b <> Done f [].
+Proof.
+  exists (FSimple [97; 13; 10; 98]). eexists. split; [reflexivity|].
+  vm_compute. discriminate.
+Qed.
+
+(** a NoResponse frame is not serialisable: the serializer stops half-way
+    (this is the C05 class noresponse-in-exec) *)
+Example c20_noresponse_partial :
+  ser no_dprint (FArray [FSimple (bs "OK"); FNoResponse; FInt 1]) = (bs "*3" ++ crlf ++ bs "+OK" ++ crlf, false).
+Proof. vm_compute. reflexivity. Qed.
+
+(** the chunking witness repaired by cb498ad: "PI" then "NG\r\n" *)
+Example c20_ping_chunks :
+  run_chunks no_dparse [bs "PI"; bs "NG" ++ crlf] = ([FArray [FBulk ping]], NeedMore).
+Proof. vm_compute. reflexivity. Qed.
+
+(** nesting deeper than the limit is an error, not a crash *)
+Example c20_depth_limit :
+  parse_frame no_dparse max_levels (concat (repeat (bs "*1" ++ crlf) 33) ++ bs ":7" ++ crlf) = Err /\
+  exists f, parse_frame no_dparse max_levels (concat (repeat (bs "*1" ++ crlf) 32) ++ bs ":7" ++ crlf) = Done f [].
+Proof. split; [vm_compute; reflexivity|]. eexists. vm_compute. reflexivity. Qed.
